@@ -166,7 +166,7 @@ func Run(c *vh.Ctx) {
 		return
 	}
 	if os.Getenv("C06_ONLY") == "h" { // development: the history stream alone
-		n := r.hEnumerate(c.Thorough(), c.Rand, c.N(1000, 40000))
+		n := r.hEnumerate(c.Thorough(), c.Rand, c.N(1000, 30000))
 		c.Note("history only: %d cases", n)
 		return
 	}
@@ -260,7 +260,7 @@ func Run(c *vh.Ctx) {
 		return
 	}
 	nRS := r.rsEnumerate(c.Thorough(), c.Rand, c.N(1500, 30000))
-	nH := r.hEnumerate(c.Thorough(), c.Rand, c.N(1000, 40000))
+	nH := r.hEnumerate(c.Thorough(), c.Rand, c.N(1000, 30000))
 	if tooManyCrashes() {
 		return
 	}
